@@ -98,7 +98,17 @@ def check_case(rep, c, rng, systems):
             return
     # un-coarse-graining a trajectory made of the coarse state spreads each group evenly
     traj = RDTrajectory(data=UnitArray(np.concatenate([st, 2 * np.array(st)]), "molecule"), t_sample=UnitArray([0.0, 1.0], "s"), system=cg)
+    before = traj.data.value.tobytes()
+    state_before = system.state.value.tobytes(), cg.state.value.tobytes()
     un = uncoarsegrain_trajectory(traj, system, imap)
+    # the inverse is a function of its arguments: they are left as they were, and asking again gives the same answer
+    un2 = uncoarsegrain_trajectory(traj, system, imap)
+    if traj.data.value.tobytes() != before or (system.state.value.tobytes(), cg.state.value.tobytes()) != state_before:
+        rep.violation("uncoarse", "coarse:uncoarsegrain-modifies-its-arguments", tag)
+        return
+    if un2.data.value.tobytes() != un.data.value.tobytes():
+        rep.violation("uncoarse", "coarse:uncoarsegrain-not-repeatable", tag)
+        return
     data = un.data.convert("molecule").value.reshape((2, 2, n))
     for k in range(n):
         g = imap[k]
